@@ -88,6 +88,12 @@ MatECASym(e) == e.tm # INF => \A w \in 1..3 : \A k \in 1..Len(ECAOpts) :
 MatRange(e) == /\ \A a \in 1..3 : \A b \in 1..3 : InRange(e.obs.es.directed[a][b])
                /\ e.tm # INF => \A w \in 1..3 : \A a \in 1..3 : \A b \in 1..3 :
                                     InRange(e.obs.eca[Windows[w]].directed[a][b])
+\* EventSeriesClimateNetwork (unit time steps): similarity = directed ES matrix, links = positive scores
+MatESCN(e) == e.obs.escn # <<>> =>
+   /\ CloseMat(e.obs.escn, ESDirected(e), Tol)
+   /\ e.obs.escn_adj = [a \in 1..3 |-> [b \in 1..3 |-> IF a # b /\ ESDirected(e)[a][b] > Tol THEN 1
+                                                        ELSE IF a # b /\ ESDirected(e)[a][b] > 0 THEN e.obs.escn_adj[a][b]
+                                                        ELSE 0]]
 MatTags(e) == "mat" \o (IF e.tm = INF THEN ",unbounded" ELSE "") \o (IF e.lag # 0 THEN ",lag" ELSE "")
 MatVerdict(e) ==
   LET R(c, s) == <<"REJECT", c, s, MatTags(e)>> IN
@@ -97,6 +103,7 @@ MatVerdict(e) ==
   ELSE IF ~MatECADef(e) THEN R("MatrixDef", "event_series_analysis(ECA)")
   ELSE IF ~MatECASym(e) THEN R("Symmetrisation", "event_series_analysis(ECA)")
   ELSE IF ~MatRange(e) THEN R("Range01", "event_series_analysis")
+  ELSE IF ~MatESCN(e) THEN R("MatrixDef", "EventSeriesClimateNetwork(ES)")
   ELSE <<"ACCEPT", "", "", MatTags(e)>>
 
 \* ---- thresholding ------------------------------------------------------------------
